@@ -7,6 +7,7 @@ import (
 	"net/netip"
 	"time"
 
+	"verif/harness/drive"
 	"verif/harness/fw"
 	"verif/harness/gen"
 	"verif/harness/refmatch"
@@ -312,8 +313,17 @@ func checkC01() fw.Check {
 						for s := 0; s < seeds; s++ {
 							v, w, b, s := v, w, b, s
 							id := fmt.Sprintf("C01/%s/%d-%d/%s/s%d", v.Name, w.first, w.last, b.name, s)
-							cases = append(cases, fw.Case{ID: id, Bubble: true, Run: func(c *fw.Ctx) { runC01Case(c, id, v, w, b, tier == "thorough" || w.last-w.first < 20) }})
+							cases = append(cases, fw.Case{ID: id, Bubble: true, Run: func(c *fw.Ctx) { runC01Case(c, id, v, w, b, tier == "thorough" || w.last-w.first < 20, false) }})
 						}
+					}
+				}
+				// the same two rounds on one protocol object (a library user calling Traceroute twice on it): the answers
+				// to the first run are stale traffic for the second
+				if v.Proto == "udp" || v.Proto == "syn" {
+					for i, w := range wins[:min(len(wins), 3)] {
+						v, w, b := v, w, bases[i%len(bases)]
+						id := fmt.Sprintf("C01/object-reuse/%s/%d-%d/%s", v.Name, w.first, w.last, b.name)
+						cases = append(cases, fw.Case{ID: id, Bubble: true, Run: func(c *fw.Ctx) { runC01Case(c, id, v, w, b, true, true) }})
 					}
 				}
 			}
@@ -322,7 +332,8 @@ func checkC01() fw.Check {
 	}
 }
 
-func runC01Case(c *fw.Ctx, id string, v refmatch.Variant, w window, b base, full bool) {
+func runC01Case(c *fw.Ctx, id string, v refmatch.Variant, w window, b base, full, reuse bool) {
+	var obj any
 	// run 0 produces the "previous run" whose genuine replies are replayed as stale traffic into run 1
 	var stale [][]byte
 	other := otherIdentities{echoID: 0x4242, port: 41000, ipid: 0x7000, seq: 0x33333333}
@@ -330,6 +341,11 @@ func runC01Case(c *fw.Ctx, id string, v refmatch.Variant, w window, b base, full
 		l := &latticeCtx{fields: map[string]bool{}}
 		round := round
 		sc := scenario{tag: fmt.Sprintf("%s round%d", id, round), v: v, win: w, b: b,
+			spec: func(s *drive.Spec) {
+				if reuse {
+					s.Obj = &obj
+				}
+			},
 			model: func(e *simEnv) *pathModel {
 				m := baselinePath(e, w, c.Rng)
 				m.extra = func(e *simEnv, p *refmatch.Probe) {
